@@ -11,10 +11,9 @@
    [cfg] = what the caller configures: extra header_registry=, strict_check_header=,
    algorithms=.  [mk_registry default extra] is the instance's merged registry.
 
-   Not covered here (see harness/props/c15.meta.json): the entry points
-   themselves are not modelled in Gallina; that they hand the merged header of
-   every signature / recipient to check_header and fail without output when it
-   fails is checked on the implementation (differential + direct oracle). *)
+   Entry points: model/C15Cases.v models each public function as a guard
+   sequence (section 8); that these sequences are those of /repo is checked on
+   the implementation (API-level differential + direct oracle). *)
 From Model Require Import Base PyVal TableTypes C15Registry C15Spec C15Cases.
 From Gen Require Import Tables.
 From Proofs Require Import C15Proofs C15Tables.
@@ -321,6 +320,54 @@ Theorem c15_merge_lookup : forall parts k,
   dget (merge_parts parts) k = last_some (map (fun p => dget_last p k) parts).
 Proof. exact merge_parts_lookup. Qed.
 
+(* ---------- 8. entry points (model/C15Cases.v: entry, entry_run) ----------
+   For every public producing / consuming function (jws.serialize_compact,
+   serialize_json, validate_compact, deserialize_compact, deserialize_json; the
+   four rfc7797 functions; jwt.encode / jwt.decode over JWS and JWE;
+   jwe.encrypt_compact / encrypt_json / decrypt_compact / decrypt_json), whatever
+   parsing, key lookup, verification and crypto do ([pre], [step], [verify], [post]
+   arbitrary): a normal return means the merged header of EVERY signature /
+   recipient satisfied the spec.  That the guard sequences are those of /repo is
+   validated by the API-level differential (each entry point is run on
+   otherwise valid objects and compared with entry_run_valid). *)
+Theorem c15_entry_checks_header : forall pre step verify post e c members,
+  entry_run pre step verify post e c members = Ok tt ->
+  forall parts, In parts members ->
+    run_spec (entry_rk e) c (entry_cm e) (entry_header e parts) = true.
+Proof. exact entry_run_checks. Qed.
+
+(* the consuming side, spelled out: validate_compact, deserialize, decode, decrypt functions *)
+Theorem c15_consume_checks_header : forall pre step verify post e c members,
+  entry_consuming e = true ->
+  entry_run pre step verify post e c members = Ok tt ->
+  forall parts, In parts members ->
+    run_spec (entry_rk e) c (entry_cm e) (merge_parts parts) = true.
+Proof. exact consume_checks. Qed.
+
+(* jws.validate_compact (the second half of extract_compact + validate_compact)
+   explicitly: it returns a verdict only for a header that satisfies the spec *)
+Theorem c15_validate_compact_checks_header : forall step verify c parts verdict,
+  validate_compact_run step verify c parts = Ok verdict ->
+  run_spec RJws c false (merge_parts parts) = true.
+Proof. exact validate_compact_spec. Qed.
+
+(* conversely a header violating the spec makes the entry point fail *)
+Theorem c15_entry_rejects : forall pre step verify post e c members parts,
+  In parts members -> run_spec (entry_rk e) c (entry_cm e) (entry_header e parts) = false ->
+  exists x, entry_run pre step verify post e c members = Err x.
+Proof. exact entry_run_rejects. Qed.
+
+Example c15_ex_validate_compact :
+  let c := default_cfg RJws in
+  validate_compact_run (fun _ => Ok tt) (Ok true) c
+    [[(asc "alg", PStr (asc "HS256")); (asc "kid", PStr (asc "k"))]] = Ok true /\
+  validate_compact_run (fun _ => Ok tt) (Ok true) c
+    [[(asc "alg", PStr (asc "HS256")); (asc "kid", PInt 123)]] = Err EValue /\
+  entry_run_valid JwsValidateCompact c [[[(asc "alg", PStr (asc "HS256")); (asc "foo", PInt 1)]]] = Err EValue /\
+  entry_run_valid JwtEncodeJws c [[[(asc "alg", PStr (asc "HS256")); (asc "typ", PInt 1)]]] = Err EValue /\
+  entry_run_valid JwtEncodeJws c [[[(asc "alg", PStr (asc "HS256"))]]] = Ok tt.
+Proof. exact ex_validate_compact. Qed.
+
 Print Assumptions c15_spec_meaning.
 Print Assumptions c15_spec_b64_meaning.
 Print Assumptions c15_validators.
@@ -350,3 +397,7 @@ Print Assumptions c15_caller_registered_enforced.
 Print Assumptions c15_error_classes.
 Print Assumptions c15_error_classes_any_registry.
 Print Assumptions c15_merge_lookup.
+Print Assumptions c15_entry_checks_header.
+Print Assumptions c15_consume_checks_header.
+Print Assumptions c15_validate_compact_checks_header.
+Print Assumptions c15_entry_rejects.
